@@ -14,7 +14,8 @@ const char* RULE =
     "return 1e6-scale poison. Oracle: every node, matrix and scalar within tol (1+|state|) of the exact solution, tol = 1e-7 for fixed stepping "
     "(step count with truncation bound < 1e-8), 3e-6 adaptive rk* and 1e-5 msadams with abs=rel=1e-10 requested; Get_t = t_ini + dt; each enabled term was called for every (ix,index), only with indices in "
     "range and times inside the step interval; a GSL failure on a supported combination is a violation; in a quarter of the cases the fixed-step "
-    "convergence order is checked instead (halving the step must reduce the error by about 2^order for rk2/rk4/rkf45/rkck/rk8pd). Non-trivial: some term enabled with "
+    "convergence order is checked instead; for source-free (linear) adaptive cases the state is scaled by 1e-6 or 1e6 with rel_error=1e-10 and a "
+    "negligible abs_error and the same relative accuracy is demanded; (order check: halving the step must reduce the error by about 2^order for rk2/rk4/rkf45/rkck/rk8pd). Non-trivial: some term enabled with "
     "numerics on and every enabled term's first-order effect (|term| x duration) above 1e-3; distinct by digest of consumed bytes.";
 void harness_init() { quiet_gsl(); }
 
@@ -78,16 +79,22 @@ void run_case(ByteSource& s, CaseInfo& ci) {
   p.manufactured_scalar = (mask & M_OS) && s.flag();
   p.g_timedep = p.manufactured_scalar || !(mask & M_OS);
   gen_problem_coeffs(s, p);
+  // Scale of the state. Without sources the equation is linear, so a state of overall size lambda must be integrated to the
+  // same RELATIVE accuracy when a relative tolerance is requested together with a negligible absolute one.
+  double lambda = 1.0;
+  bool linear = !(mask & M_OTHER) && !(mask & M_OS) && p.family != FAM_MANUFACTURED;
+  if (linear && adaptive && s.choose(3) == 0) lambda = s.flag() ? 1e-6 : 1e6;
   TSolver S(p);
   unsigned perm = s.choose(120);  // order in which the five switch setters are called
   S.set_mask(mask, perm);
   S.Set_GSL_step(STEPPERS[stepper]); S.Set_AdaptiveStep(adaptive);
-  S.Set_rel_error(1e-10); S.Set_abs_error(1e-10); S.Set_h(1e-4); S.Set_h_max(0.05);
+  S.Set_rel_error(1e-10); S.Set_abs_error(lambda == 1.0 ? 1e-10 : 1e-12 * lambda); S.Set_h(1e-4); S.Set_h_max(0.05);
+  if (lambda != 1.0) ci.label(lambda < 1 ? "state-scale-1e-6" : "state-scale-1e6");
   unsigned nsteps = fixed_steps(stepper, dur);
   if (!adaptive) S.Set_NumSteps(nsteps);
   if (any_off) S.Set_AnyNumerics(false);
   std::string desc = fmt("nx=%d nsun=%d nrhos=%d nscalars=%d mask=%u(setter order %u)%s family=%d mscalar=%d stepper=%s/%s(%u) t_ini=%.17g dt=%.17g", p.nx, p.d, p.nr, p.ns, mask, perm, any_off ? "(AnyNumerics off)" : "",
-                         p.family, (int)p.manufactured_scalar, STEPPER_NAMES[stepper], adaptive ? "adaptive" : "fixed", nsteps, p.t_ini, dur);
+                         p.family, (int)p.manufactured_scalar, STEPPER_NAMES[stepper], adaptive ? "adaptive" : "fixed", nsteps, p.t_ini, dur) + (lambda != 1.0 ? fmt(" state-scale=%g (rel_error 1e-10, abs_error %g)", lambda, 1e-12 * lambda) : std::string());
   ci.sample = desc;
   ci.label(fmt("mask-%u", mask)); ci.label(fmt("%s-%s", STEPPER_NAMES[stepper], adaptive ? "adaptive" : "fixed")); ci.label(fmt("family-%d", p.family));
   ci.label(fmt("nx%d", p.nx)); ci.label(fmt("nsun%d", p.d)); ci.label(fmt("nrhos%d", p.nr)); ci.label(fmt("nscalars%d", p.ns));
@@ -100,11 +107,11 @@ void run_case(ByteSource& s, CaseInfo& ci) {
     for (int ir = 0; ir < p.nr; ir++) {
       std::vector<double> c(p.d * p.d);
       if (p.family == FAM_MANUFACTURED) { std::vector<ld> cc = fromM(p.target(ix, ir, t0)); for (int k = 0; k < p.d * p.d; k++) c[k] = (double)cc[k]; }
-      else for (auto& x : c) x = 0.3 + s.dense();
+      else for (auto& x : c) x = lambda * (0.3 + s.dense());
       for (int k = 0; k < p.d * p.d; k++) S.rho(ix, ir)[k] = c[k];
       r0[ix][ir] = toM(c, p.d);
     }
-    for (int is = 0; is < p.ns; is++) { double v = p.manufactured_scalar ? (double)p.starget(ix, is, t0) : 0.5 + s.unif01(); S.scalar(ix, is) = v; s0[ix][is] = v; }
+    for (int is = 0; is < p.ns; is++) { double v = p.manufactured_scalar ? (double)p.starget(ix, is, t0) : lambda * (0.5 + s.unif01()); S.scalar(ix, is) = v; s0[ix][is] = v; }
   }
   // evolve
   try { S.Evolve(dur); }
@@ -122,7 +129,7 @@ void run_case(ByteSource& s, CaseInfo& ci) {
     for (int ir = 0; ir < p.nr; ir++) {
       Mat want = p.exact_rho(ix, ir, r0[ix][ir], t0, t1, eff);
       Mat got = toM(S.rho(ix, ir));
-      ld sc = 1 + maxabs(want);
+      ld sc = (ld)lambda + maxabs(want);
       ld err = maxabs(got - want);
       worst = std::max(worst, err / (TOLC * sc));
       CHECK(err <= TOLC * sc, fmt("C04|rho-differs-from-exact-solution|family=%d", p.family), "node %d matrix %d: max entry error %.3Lg (scale %.3Lg) :: %s", ix, ir, err, sc, desc.c_str());
@@ -130,8 +137,8 @@ void run_case(ByteSource& s, CaseInfo& ci) {
     for (int is = 0; is < p.ns; is++) {
       ld want = p.exact_scalar(ix, is, s0[ix][is], t0, t1, eff);
       ld err = fabsl((ld)S.scalar(ix, is) - want);
-      worst = std::max(worst, err / (TOLC * (1 + fabsl(want))));
-      CHECK(err <= TOLC * (1 + fabsl(want)), "C04|scalar-differs-from-exact-solution", "node %d scalar %d: got %.17g exact %.17Lg :: %s", ix, is, S.scalar(ix, is), want, desc.c_str());
+      worst = std::max(worst, err / (TOLC * ((ld)lambda + fabsl(want))));
+      CHECK(err <= TOLC * ((ld)lambda + fabsl(want)), "C04|scalar-differs-from-exact-solution", "node %d scalar %d: got %.17g exact %.17Lg :: %s", ix, is, S.scalar(ix, is), want, desc.c_str());
     }
   }
   ci.ratio(fmt("%s-%s", STEPPER_NAMES[stepper], adaptive ? "adaptive" : "fixed"), (double)worst);
